@@ -447,6 +447,39 @@ func (f *FA) prepare() {
 			}
 		}
 	}
+	// q = a / k with a constant k > 0 and a >= 0 (a length): k*q <= a <= k*q + k-1, from the definition on
+	for _, b := range f.Fn.DomPreorder() {
+		for _, ins := range b.Instrs {
+			bo, ok := ins.(*ssa.BinOp)
+			if !ok || bo.Op != token.QUO {
+				continue
+			}
+			if _, _, isInt := f.typeRange(bo.Type()); !isInt {
+				continue
+			}
+			k := f.LFOf(bo.Y)
+			if !k.isConst() || k.C <= 0 || k.C > 1<<16 {
+				continue
+			}
+			a := f.LFOf(bo.X)
+			if lo, _ := f.bounds(a, nil); lo < 0 && !isLenCall(bo.X) {
+				continue
+			}
+			q := f.LFOf(bo)
+			f.Inject(b, Fact{L: a.add(q, -k.C)})
+			f.Inject(b, Fact{L: q.scale(k.C).add(konst(k.C-1), 1).add(a, -1)})
+		}
+	}
+}
+
+// isLenCall: v is len(x) of a slice, string or array, possibly converted between integer types that hold it.
+func isLenCall(v ssa.Value) bool {
+	c, ok := v.(*ssa.Call)
+	if !ok {
+		return false
+	}
+	b, ok := c.Call.Value.(*ssa.Builtin)
+	return ok && b.Name() == "len"
 }
 
 // LFOf returns the linear form of an integer SSA value.
@@ -610,6 +643,14 @@ func (f *FA) lf0(v ssa.Value) LF {
 					hi = ahi / b.C
 				}
 				return f.atomLF(k, name, alo/b.C, hi)
+			}
+			if b.isConst() && b.C > 0 && alo > -INF && ahi < INF {
+				// Go's division truncates towards zero, so the quotient lies between the quotients of the ends
+				lo, hi := alo/b.C, ahi/b.C
+				if isLenCall(x.X) {
+					lo = 0
+				}
+				return f.atomLF(k, name, lo, hi)
 			}
 		}
 		return f.atomLF(k, name, tlo, thi)
@@ -1301,8 +1342,8 @@ func (f *FA) Prove(g LF, facts []Fact) (bool, string) {
 			if i >= j {
 				continue
 			}
-			for k1 := int64(1); k1 <= 2; k1++ {
-				for k2 := int64(1); k2 <= 2; k2++ {
+			for k1 := int64(1); k1 <= 4; k1++ {
+				for k2 := int64(1); k2 <= 4; k2++ {
 					if lo, _ := f.bounds(g.add(a, -k1).add(b, -k2), e); lo >= 0 {
 						return true, fmt.Sprintf("goal - %d*(%s) - %d*(%s) is non-negative", k1, f.Show(a), k2, f.Show(b))
 					}
